@@ -74,16 +74,13 @@ func (p *PromiseContainer[T]) Await(ctx context.Context) (val T, err error) {
 		}
 
 		val, valErr := prom.AwaitWithCancelCh(ctx, waitCh)
-		if valErr == nil {
-			return val, nil
+		if valErr == context.Canceled && ctx.Err() == nil && isClosed(waitCh) {
+			// the promise was replaced: await the new one
+			continue
 		}
-		if valErr == context.Canceled {
-			if ctx.Err() != nil {
-				return val, context.Canceled
-			}
-		} else {
-			return val, valErr
-		}
+		// the result of the promise (which may itself carry context.Canceled)
+		// or the cancellation of ctx
+		return val, valErr
 	}
 }
 
@@ -111,17 +108,24 @@ func (p *PromiseContainer[T]) AwaitWithErrCh(ctx context.Context, errCh <-chan e
 			}
 		}
 
-		val, valErr := prom.AwaitWithCancelCh(ctx, waitCh)
-		if valErr == nil {
-			return val, nil
-		}
-		if valErr == context.Canceled {
-			if ctx.Err() != nil {
-				return val, context.Canceled
+		// wake up the await below if the promise is replaced
+		awaitCtx, awaitCancel := context.WithCancel(ctx)
+		go func() {
+			select {
+			case <-awaitCtx.Done():
+			case <-waitCh:
+				awaitCancel()
 			}
-		} else {
-			return val, valErr
+		}()
+		val, valErr := prom.AwaitWithErrCh(awaitCtx, errCh)
+		awaitCancel()
+		if valErr == context.Canceled && ctx.Err() == nil && isClosed(waitCh) {
+			// the promise was replaced: await the new one
+			continue
 		}
+		// the result of the promise, the error from errCh (context.Canceled if
+		// it was closed) or the cancellation of ctx
+		return val, valErr
 	}
 }
 
@@ -150,17 +154,41 @@ func (p *PromiseContainer[T]) AwaitWithCancelCh(ctx context.Context, cancelCh <-
 			}
 		}
 
-		val, valErr := prom.AwaitWithCancelCh(ctx, waitCh)
-		if valErr == nil {
-			return val, nil
-		}
-		if valErr == context.Canceled {
-			if ctx.Err() != nil {
-				return val, context.Canceled
+		// wake up the await below if the promise is replaced or cancelCh fires
+		eitherCh, stopCh := make(chan struct{}), make(chan struct{})
+		go func() {
+			select {
+			case <-stopCh:
+				return
+			case <-waitCh:
+			case <-cancelCh:
 			}
-		} else {
-			return val, valErr
+			close(eitherCh)
+		}()
+		val, valErr := prom.AwaitWithCancelCh(ctx, eitherCh)
+		close(stopCh)
+		if valErr == context.Canceled && ctx.Err() == nil {
+			if isClosed(cancelCh) {
+				var empty T
+				return empty, nil
+			}
+			if isClosed(waitCh) {
+				// the promise was replaced: await the new one
+				continue
+			}
 		}
+		// the result of the promise or the cancellation of ctx
+		return val, valErr
+	}
+}
+
+// isClosed checks if the channel is closed (or has a value pending) without blocking.
+func isClosed(ch <-chan struct{}) bool {
+	select {
+	case <-ch:
+		return true
+	default:
+		return false
 	}
 }
 
